@@ -463,6 +463,16 @@ def gen_all(ctx):
         scs.append(S.gen_scenario(rng, "multi_taper_psd", nmax=32 if q else 96, max_ch=rng.choice([1, 2, 3, 4]) if q else 5))
     for _ in range(ctx.scale(12, 100)):
         scs.append(S.gen_scenario(rng, "periodogram_csd", nmax=24 if q else 64, max_ch=4 if q else 5))
+    # BOTH NW and BW in one call (conflicting / agreeing), psd and csd, directly and through get_spectra
+    for i in range(ctx.scale(6, 24)):
+        est = "multi_taper_psd" if i % 2 == 0 else "multi_taper_csd"
+        sc = S.runnable(lambda: S.force_both_nw_bw(rng, S.gen_scenario(rng, est, nmax=18 if q else 32, max_ch=2, lead=[2], layout="C"), i))
+        if est == "multi_taper_csd" and i % 4 == 3:
+            sc["via_get_spectra"] = True
+        scs.append(sc)
+    # option combinations as small full factorials
+    scs += S.combo_plan(rng, "multi_taper_psd")
+    scs += S.combo_plan(rng, "periodogram") if not q else S.combo_plan(rng, "periodogram")[::2]
     # BW * N / Fs exactly on a half-integer (np.round: half to even), k even / odd, and one ulp either side
     for i in range(ctx.scale(8, 32)):
         scs.append(S.force_bw_tie(rng, S.gen_scenario(rng, "multi_taper_psd" if i % 3 else "multi_taper_csd", nmax=20, max_ch=2,
